@@ -1,4 +1,267 @@
-//! process-level helpers (filled in later)
-pub fn worker_main(_kind: &str) -> ! {
-    std::process::exit(2)
+//! Process-level helpers: driving the real `blots` binary and crash-isolated workers.
+#![allow(dead_code)]
+
+use std::io::Write;
+use std::process::{Command, Stdio};
+use std::sync::atomic::{AtomicUsize, Ordering};
+use std::time::{Duration, Instant};
+
+static COUNTER: AtomicUsize = AtomicUsize::new(0);
+
+pub fn blots_bin() -> String {
+    std::env::var("BLOTS_BIN").unwrap_or_else(|_| "/verif/.build/repo/release/blots".to_string())
+}
+
+pub fn scratch_dir() -> String {
+    let d = format!("/verif/.build/scratch/{}", std::process::id());
+    let _ = std::fs::create_dir_all(&d);
+    d
+}
+
+pub fn scratch_file(tag: &str) -> String {
+    let n = COUNTER.fetch_add(1, Ordering::Relaxed);
+    format!("{}/{}-{}", scratch_dir(), tag, n)
+}
+
+pub fn cleanup_scratch() {
+    let _ = std::fs::remove_dir_all(scratch_dir());
+}
+
+#[derive(Debug, Clone)]
+pub struct CliResult {
+    /// exit code, or None when killed by a signal
+    pub code: Option<i32>,
+    pub signal: Option<i32>,
+    pub stdout: String,
+    pub stderr: String,
+    pub timed_out: bool,
+}
+
+impl CliResult {
+    pub fn crashed(&self) -> bool {
+        self.signal.is_some() || matches!(self.code, Some(101) | Some(134) | Some(139)) || self.timed_out
+    }
+    pub fn describe(&self) -> String {
+        format!(
+            "exit={:?} signal={:?}{} stdout={:?} stderr={:?}",
+            self.code,
+            self.signal,
+            if self.timed_out { " TIMEOUT" } else { "" },
+            crate::common::truncate(&self.stdout, 200),
+            crate::common::truncate(&self.stderr, 300)
+        )
+    }
+}
+
+/// Run a command with the given stdin bytes, an optional stack limit (bytes) and a wall-clock cap.
+pub fn run_cmd(program: &str, args: &[String], stdin: Option<&[u8]>, stack_limit: Option<u64>, timeout: Duration) -> CliResult {
+    use std::os::unix::process::{CommandExt, ExitStatusExt};
+    let mut cmd = Command::new(program);
+    cmd.args(args).env("RUST_BACKTRACE", "0").env("NO_COLOR", "1").stdout(Stdio::piped()).stderr(Stdio::piped());
+    cmd.stdin(if stdin.is_some() { Stdio::piped() } else { Stdio::null() });
+    if let Some(limit) = stack_limit {
+        unsafe {
+            cmd.pre_exec(move || {
+                let lim = libc::rlimit { rlim_cur: limit, rlim_max: limit };
+                libc::setrlimit(libc::RLIMIT_STACK, &lim);
+                // no core files
+                let zero = libc::rlimit { rlim_cur: 0, rlim_max: 0 };
+                libc::setrlimit(libc::RLIMIT_CORE, &zero);
+                Ok(())
+            });
+        }
+    } else {
+        unsafe {
+            cmd.pre_exec(|| {
+                let zero = libc::rlimit { rlim_cur: 0, rlim_max: 0 };
+                libc::setrlimit(libc::RLIMIT_CORE, &zero);
+                Ok(())
+            });
+        }
+    }
+    let mut child = match cmd.spawn() {
+        Ok(c) => c,
+        Err(e) => {
+            return CliResult { code: None, signal: None, stdout: String::new(), stderr: format!("spawn failed: {}", e), timed_out: false };
+        }
+    };
+    if let Some(bytes) = stdin {
+        if let Some(mut si) = child.stdin.take() {
+            let _ = si.write_all(bytes);
+        }
+    }
+    // read output on helper threads so a full pipe cannot block the child
+    let mut so = child.stdout.take().unwrap();
+    let mut se = child.stderr.take().unwrap();
+    let t_out = std::thread::spawn(move || {
+        let mut v = Vec::new();
+        let _ = std::io::Read::read_to_end(&mut so, &mut v);
+        v
+    });
+    let t_err = std::thread::spawn(move || {
+        let mut v = Vec::new();
+        let _ = std::io::Read::read_to_end(&mut se, &mut v);
+        v
+    });
+    let start = Instant::now();
+    let mut timed_out = false;
+    let status = loop {
+        match child.try_wait() {
+            Ok(Some(s)) => break Some(s),
+            Ok(None) => {
+                if start.elapsed() > timeout {
+                    let _ = child.kill();
+                    timed_out = true;
+                    break child.wait().ok();
+                }
+                std::thread::sleep(Duration::from_millis(2));
+            }
+            Err(_) => break None,
+        }
+    };
+    let stdout = String::from_utf8_lossy(&t_out.join().unwrap_or_default()).to_string();
+    let stderr = String::from_utf8_lossy(&t_err.join().unwrap_or_default()).to_string();
+    CliResult {
+        code: status.and_then(|s| s.code()),
+        signal: status.and_then(|s| s.signal()),
+        stdout,
+        stderr,
+        timed_out,
+    }
+}
+
+/// Run the real blots binary.
+pub fn run_blots(args: &[String], stdin: Option<&[u8]>, stack_limit: Option<u64>) -> CliResult {
+    run_cmd(&blots_bin(), args, stdin, stack_limit, Duration::from_secs(20))
+}
+
+/// `blots --format in out` on `src`; returns the formatted text.
+pub fn run_cli_format(src: &str) -> Result<String, String> {
+    let inp = scratch_file("fmt-in");
+    let out = scratch_file("fmt-out");
+    std::fs::write(&inp, src).map_err(|e| e.to_string())?;
+    let r = run_blots(&["--format".into(), inp.clone(), out.clone()], None, None);
+    let res = if r.code == Some(0) {
+        std::fs::read_to_string(&out).map_err(|e| format!("cannot read output: {}", e))
+    } else {
+        Err(r.describe())
+    };
+    let _ = std::fs::remove_file(&inp);
+    let _ = std::fs::remove_file(&out);
+    res
+}
+
+// ---------------------------------------------------------------------------------------------
+// crash-isolated worker: reads one JSON case per line on stdin, answers one JSON line on stdout
+
+pub fn worker_main(kind: &str) -> ! {
+    crate::common::install_quiet_panic_hook();
+    let stdin = std::io::stdin();
+    let mut line = String::new();
+    let out = std::io::stdout();
+    loop {
+        line.clear();
+        match stdin.read_line(&mut line) {
+            Ok(0) | Err(_) => break,
+            Ok(_) => {}
+        }
+        let case: serde_json::Value = match serde_json::from_str(line.trim()) {
+            Ok(c) => c,
+            Err(_) => continue,
+        };
+        let answer = match kind {
+            "c01" => crate::c01::worker_case(&case),
+            _ => serde_json::json!({"error": "unknown worker kind"}),
+        };
+        let mut o = out.lock();
+        let _ = writeln!(o, "{}", answer);
+        let _ = o.flush();
+    }
+    std::process::exit(0)
+}
+
+/// Supervisor side: a worker process that is restarted when it dies; the case in flight when it
+/// died is attributed to the death.
+pub struct Worker {
+    kind: String,
+    child: Option<std::process::Child>,
+    stdin: Option<std::process::ChildStdin>,
+    stdout: Option<std::io::BufReader<std::process::ChildStdout>>,
+    stack_limit: Option<u64>,
+}
+
+pub enum WorkerAnswer {
+    Ok(serde_json::Value),
+    /// worker died while processing the case
+    Died(String),
+}
+
+impl Worker {
+    pub fn new(kind: &str, stack_limit: Option<u64>) -> Self {
+        Worker { kind: kind.to_string(), child: None, stdin: None, stdout: None, stack_limit }
+    }
+
+    fn ensure(&mut self) {
+        if self.child.is_some() {
+            return;
+        }
+        use std::os::unix::process::CommandExt;
+        let exe = std::env::current_exe().expect("current exe");
+        let mut cmd = Command::new(exe);
+        cmd.arg("worker").arg(&self.kind).env("RUST_BACKTRACE", "0").stdin(Stdio::piped()).stdout(Stdio::piped()).stderr(Stdio::null());
+        let limit = self.stack_limit;
+        unsafe {
+            cmd.pre_exec(move || {
+                if let Some(l) = limit {
+                    let lim = libc::rlimit { rlim_cur: l, rlim_max: l };
+                    libc::setrlimit(libc::RLIMIT_STACK, &lim);
+                }
+                let zero = libc::rlimit { rlim_cur: 0, rlim_max: 0 };
+                libc::setrlimit(libc::RLIMIT_CORE, &zero);
+                let mem = libc::rlimit { rlim_cur: 8 << 30, rlim_max: 8 << 30 };
+                libc::setrlimit(libc::RLIMIT_AS, &mem);
+                Ok(())
+            });
+        }
+        let mut child = cmd.spawn().expect("spawn worker");
+        self.stdin = child.stdin.take();
+        self.stdout = child.stdout.take().map(std::io::BufReader::new);
+        self.child = Some(child);
+    }
+
+    pub fn ask(&mut self, case: &serde_json::Value) -> WorkerAnswer {
+        use std::io::BufRead;
+        use std::os::unix::process::ExitStatusExt;
+        self.ensure();
+        let line = format!("{}\n", case);
+        let wrote = self.stdin.as_mut().map(|s| s.write_all(line.as_bytes()).and_then(|_| s.flush()).is_ok()).unwrap_or(false);
+        let mut answer = String::new();
+        let read = if wrote { self.stdout.as_mut().map(|o| o.read_line(&mut answer).unwrap_or(0)).unwrap_or(0) } else { 0 };
+        if read == 0 {
+            // died
+            let status = self.child.as_mut().and_then(|c| c.wait().ok());
+            let desc = match status {
+                Some(s) => format!("worker exit code {:?} signal {:?}", s.code(), s.signal()),
+                None => "worker vanished".to_string(),
+            };
+            self.child = None;
+            self.stdin = None;
+            self.stdout = None;
+            return WorkerAnswer::Died(desc);
+        }
+        match serde_json::from_str(answer.trim()) {
+            Ok(v) => WorkerAnswer::Ok(v),
+            Err(e) => WorkerAnswer::Died(format!("unparsable worker answer {:?}: {}", answer, e)),
+        }
+    }
+}
+
+impl Drop for Worker {
+    fn drop(&mut self) {
+        self.stdin = None;
+        if let Some(mut c) = self.child.take() {
+            let _ = c.kill();
+            let _ = c.wait();
+        }
+    }
 }
